@@ -117,6 +117,7 @@ type Sim struct {
 	piled          int
 	stop           *stopState
 	calm           bool
+	nats           *natsWorld
 	pendingAcc     []pendingAccess
 	connGone       map[int]int
 	tokenResetSubj map[string]bool
